@@ -5,7 +5,7 @@ property relates the implementation to itself the other side is the same real co
 import copy
 
 from . import build, observe
-from .codec import dec, dotted, keyset, show, strict_eq
+from .codec import dec, dotted, force, keyset, show, strict_eq
 
 
 class Result:
@@ -499,24 +499,24 @@ def judge_c08(case, lab):
         for path in a["mentions"]:
             if len(path) < 2 or any(seg.isdigit() for seg in path):
                 continue
-            p1, p2 = nest(path, 901), nest(path[:-1] + ["VERIF_SIBLING"], 902)
-            for mode in ("with_options", "with_default_options"):
-                gd = _fresh(case, lab)
-                chained = getattr(getattr(gd.root, mode)(copy.deepcopy(p1)), mode)(copy.deepcopy(p2))
-                got2 = observe.call(lambda: chained.evaluate(copy.deepcopy(o)), lab)
-                # reference: the dataset WITHOUT its own pre-set / default options, under the overlay
-                #   defaults (dd [+ p1 + p2])  <  caller options  <  pre-set (q [+ p1 + p2])
-                q0, dd0 = dec(root["q"]), dec(root["dd"])
-                if mode == "with_options":
-                    q0 = mix(mix(q0, copy.deepcopy(p1)), copy.deepcopy(p2))
-                else:
-                    dd0 = mix(mix(dd0, copy.deepcopy(p1)), copy.deepcopy(p2))
-                eff = mix(mix(dd0, copy.deepcopy(o)), q0)
-                gr = _fresh(_unwrapped(case), lab)
-                ref2 = observe.call(lambda: gr.root.evaluate(eff), lab)
-                if not (got2.get("lazy") or ref2.get("lazy")) and not same_outcome(got2, ref2):
-                    res.bad("derivatives-compose", "%s(%s).%s(%s) under %s gives %s; the dataset under the overlaid options %s gives %s" % (
-                        mode, p1, mode, p2, o, observe.describe(got2), eff, observe.describe(ref2)))
+            for p1, p2 in ((nest(path, 901), nest(path[:-1] + ["VERIF_SIBLING"], 902)), (nest(path, 901), nest(path, 903))):
+              for mode in ("with_options", "with_default_options"):
+                  gd = _fresh(case, lab)
+                  chained = getattr(getattr(gd.root, mode)(copy.deepcopy(p1)), mode)(copy.deepcopy(p2))
+                  got2 = observe.call(lambda: chained.evaluate(copy.deepcopy(o)), lab)
+                  # reference: the dataset WITHOUT its own pre-set / default options, under the overlay
+                  #   defaults (dd [+ p1 + p2])  <  caller options  <  pre-set (q [+ p1 + p2])
+                  q0, dd0 = dec(root["q"]), dec(root["dd"])
+                  if mode == "with_options":
+                      q0 = mix(mix(q0, copy.deepcopy(p1)), copy.deepcopy(p2))
+                  else:
+                      dd0 = mix(mix(dd0, copy.deepcopy(p1)), copy.deepcopy(p2))
+                  eff = mix(mix(dd0, copy.deepcopy(o)), q0)
+                  gr = _fresh(_unwrapped(case), lab)
+                  ref2 = observe.call(lambda: gr.root.evaluate(eff), lab)
+                  if not (got2.get("lazy") or ref2.get("lazy")) and not same_outcome(got2, ref2):
+                      res.bad("derivatives-compose", "%s(%s).%s(%s) under %s gives %s; the dataset under the overlaid options %s gives %s" % (
+                          mode, p1, mode, p2, o, observe.describe(got2), eff, observe.describe(ref2)))
     # (2) no call modifies the caller's dictionary or the pre-set dictionaries
     for what in ("validate", "keys", "explain"):
         fn = getattr(g.root, what)
@@ -958,6 +958,10 @@ def judge_c16_group(cases, lab):
                 res.bad("logging-off" + tag, "%d log records emitted although logging is disabled" % len(a_rec))
             if log == "on":
                 info = [r for r in a_rec if r[0] == pylogging.INFO]
+                computed = len([e for e in a_log if e[0] == "callback"])
+                if len(info) < computed:
+                    res.bad("one-log-per-miss" + tag, "%d dataset evaluations were computed (their callbacks ran) but only %d INFO records were emitted" % (
+                        computed, len(info)))
                 if len(info) != a_miss or len(a_rec) != len(info):
                     res.bad("one-log-per-miss" + tag, "%d dataset evaluations were not served from a cache, %d INFO records (%d records in all)" % (
                         a_miss, len(info), len(a_rec)))
@@ -1064,7 +1068,7 @@ def judge_c19_group(cases, lab):
         obj = inst["v"]
         expd = dec(exp["v"])
         for n in names:
-            if not strict_eq(getattr(obj, attr_name(n), "<missing>"), expd[n]):
+            if not strict_eq(force(getattr(obj, attr_name(n), "<missing>")), expd[n]):
                 res.bad("attribute", "attribute %s = %s, the member evaluates to %s" % (
                     attr_name(n), show(getattr(obj, attr_name(n), "<missing>")), show(expd[n])))
         if getattr(obj, "konst", None) != 42:
